@@ -253,7 +253,13 @@ func (runInfo *runInfoStruct) invokeMultiplyOperator(operator *ast.MultiplyOpera
 				runInfo.rv = nilValue
 				return
 			}
-			runInfo.rv = reflect.ValueOf(strings.Repeat(toString(lhsV), int(count)))
+			if !runInfo.options.Debug {
+				// captures panic: strings.Repeat panics when the result is too large
+				defer recoverFunc(runInfo)
+			}
+			str := toString(lhsV)
+			runInfo.rv = nilValue
+			runInfo.rv = reflect.ValueOf(strings.Repeat(str, int(count)))
 			return
 		}
 		if lhsV.Kind() == reflect.Float64 || runInfo.rv.Kind() == reflect.Float64 {
